@@ -47,19 +47,34 @@ def LaterOutputsIdentified (p : GPat) : Prop :=
 /-- no host node carries an overload -/
 def NoOverloads (g : Graph) : Prop := ∀ N ∈ g.nodes, N.overload = ""
 
-theorem opId_exact {P : NPat} {d o : String} (h : P.opId = some (d, o)) :
+theorem opIdF_exact {b : Bool} {P : NPat} {d o : String} (h : P.opIdF b = some (d, o)) :
     P.domain = .exact d ∧ P.op = .exact o := by
-  unfold NPat.opId at h
+  unfold NPat.opIdF at h
   split at h
   · cases h
   · split at h
     · next d' o' hd ho => cases h; exact ⟨hd, ho⟩
     · cases h
 
+theorem opId_opIdF {b : Bool} {P : NPat} {x : String × String} (h : P.opId = some x) : P.opIdF b = some x := by
+  unfold NPat.opId at h
+  unfold NPat.opIdF
+  split at h
+  · cases h
+  · next hs =>
+    have : P.opIsStr = true := by simpa using hs
+    simp only [this, Bool.not_true, Bool.false_and, Bool.false_eq_true, if_false]
+    exact h
+
+/-- the condition under which every node an output pattern can match is among its candidates: repair C06-F5,
+or — for the code before it — identifiers on all later output nodes and no overloads in the graph -/
+def CandidatesComplete (E : Env) : Prop :=
+  E.fixF5 = true ∨ (LaterOutputsIdentified E.p ∧ NoOverloads E.g)
+
 /-- the instance's nodes for the later output nodes form one of the candidate combinations -/
-theorem candidates_cover (E : Env) (A : Assign) (hov : NoOverloads E.g) :
+theorem candidates_cover (E : Env) (A : Assign) :
     ∀ (l : List NPId) (b : Bool),
-      (∀ np ∈ l, ∃ P d o, E.p.nodes[np]? = some P ∧ P.opId = some (d, o)) →
+      (E.fixF5 = true ∨ ((∀ np ∈ l, ∃ P d o, E.p.nodes[np]? = some P ∧ P.opId = some (d, o)) ∧ NoOverloads E.g)) →
       (∀ np ∈ l, ∃ n, SatN E A np n) →
       ∃ ns, ns ∈ product (candidatesRest E l b) ∧ ∀ np n, (np, n) ∈ l.zip ns → SatN E A np n := by
   intro l
@@ -67,38 +82,60 @@ theorem candidates_cover (E : Env) (A : Assign) (hov : NoOverloads E.g) :
   | nil => intro b _ _; exact ⟨[], by simp [candidatesRest, product], fun _ _ h => by simp at h⟩
   | cons np rest ih =>
     intro b hid hsat
-    obtain ⟨P, d, o, hP, hop⟩ := hid np (List.mem_cons_self ..)
     obtain ⟨n, hn⟩ := hsat np (List.mem_cons_self ..)
-    obtain ⟨ns, hns, hz⟩ := ih b (fun np' hm => hid np' (List.mem_cons_of_mem _ hm))
-      (fun np' hm => hsat np' (List.mem_cons_of_mem _ hm))
-    have hcand : n ∈ (List.range E.g.nodes.length).filter (fun i =>
-        match E.g.nodes[i]? with
-        | some gn => gn.opKey == (d, o, "")
-        | none => false) := by
-      cases hn with
-      | mk _ _ P' N hP' hN _ hopm hdom =>
-        rw [hP] at hP'; cases hP'
-        obtain ⟨hd, ho⟩ := opId_exact hop
-        have hlt : n < E.g.nodes.length := by
-          rcases Nat.lt_or_ge n E.g.nodes.length with h | h
+    have hid' : E.fixF5 = true ∨ ((∀ np ∈ rest, ∃ P d o, E.p.nodes[np]? = some P ∧ P.opId = some (d, o)) ∧ NoOverloads E.g) :=
+      hid.imp id (fun h => ⟨fun np' hm => h.1 np' (List.mem_cons_of_mem _ hm), h.2⟩)
+    have hsat' : ∀ np ∈ rest, ∃ n, SatN E A np n := fun np' hm => hsat np' (List.mem_cons_of_mem _ hm)
+    have hlt : n < E.g.nodes.length := (satN_bounds hn).2
+    cases hn with
+    | mk _ _ P N hP hN hnode hopm hdom hat hlen hnone hsome hout =>
+      have hn' : SatN E A np n := .mk np n P N hP hN hnode hopm hdom hat hlen hnone hsome hout
+      unfold candidatesRest
+      simp only [hP, Option.bind_some]
+      cases hop : P.opIdF E.fixF5b with
+      | none =>
+        dsimp only
+        have hnotid : E.fixF5 = true := by
+          rcases hid with h | h
           · exact h
-          · simp [List.getElem?_eq_none h] at hN
-        simp only [List.mem_filter, List.mem_range, hN]
-        refine ⟨hlt, ?_⟩
+          · obtain ⟨P', d, o, hP', hop'⟩ := h.1 np (List.mem_cons_self ..)
+            rw [hP] at hP'; cases hP'
+            rw [opId_opIdF hop'] at hop
+            cases hop
+        obtain ⟨ns, hns, hz⟩ := ih true hid' hsat'
+        refine ⟨n :: ns, ?_, ?_⟩
+        · simp only [hnotid, Bool.not_true, Bool.and_false, Bool.false_eq_true, if_false, product,
+            List.mem_flatMap, List.mem_map]
+          exact ⟨n, List.mem_range.2 hlt, ns, hns, rfl⟩
+        · intro np' n' hm
+          simp only [List.zip_cons_cons, List.mem_cons] at hm
+          rcases hm with he | hm
+          · cases he; exact hn'
+          · exact hz np' n' hm
+      | some x =>
+        obtain ⟨d, o⟩ := x
+        dsimp only
+        obtain ⟨hd, ho⟩ := opIdF_exact hop
         have h1 : N.op = o := by rw [ho] at hopm; exact (by simpa [StrPat.matches] using hopm : o = N.op).symm
         have h2 : N.domain = d := by rw [hd] at hdom; exact (by simpa [StrPat.matches] using hdom : d = N.domain).symm
-        have h3 := hov N (List.mem_of_getElem? hN)
-        simp [GNode.opKey, h1, h2, h3]
-    refine ⟨n :: ns, ?_, ?_⟩
-    · unfold candidatesRest
-      simp only [hP, Option.bind_some, hop]
-      simp only [product, List.mem_flatMap, List.mem_map]
-      exact ⟨n, hcand, ns, hns, rfl⟩
-    · intro np' n' hm
-      simp only [List.zip_cons_cons, List.mem_cons] at hm
-      rcases hm with he | hm
-      · cases he; exact hn
-      · exact hz np' n' hm
+        have hcand : isCandidate E d o n = true := by
+          unfold isCandidate
+          simp only [hN]
+          rcases hid with h | h
+          · simp [h, h1, h2]
+          · by_cases hf : E.fixF5 = true
+            · simp [hf, h1, h2]
+            · have h3 := h.2 N (List.mem_of_getElem? hN)
+              simp [hf, GNode.opKey, h1, h2, h3]
+        obtain ⟨ns, hns, hz⟩ := ih b hid' hsat'
+        refine ⟨n :: ns, ?_, ?_⟩
+        · simp only [product, List.mem_flatMap, List.mem_map, List.mem_filter, List.mem_range]
+          exact ⟨n, ⟨hlt, hcand⟩, ns, hns, rfl⟩
+        · intro np' n' hm
+          simp only [List.zip_cons_cons, List.mem_cons] at hm
+          rcases hm with he | hm
+          · cases he; exact hn'
+          · exact hz np' n' hm
 
 theorem valueChecks_ok_aux : ∀ (vp : VPat), vp.checksOk = true → ∀ id b, (id, b) ∈ vpChecks vp → b = true
   | .var id' _ _ _ (some b'), h, id, b, hm => by
@@ -175,11 +212,11 @@ theorem multiMatch_ok (E : Env) (A : Assign) (combo : List NodeId)
 theorem matcher_complete_multi (E : Env) (A : Assign) (root : NodeId)
     (hno : E.p.noOr = true) (htopo : E.p.topo) (hnc : E.fixF2 = false ∨ NamedVarsUnchecked E.p)
     (har : E.fixF1 = true ∨ OutputArityOk E.p E.g)
-    (houts : OutputsOfOutputNodes E.p) (hid : LaterOutputsIdentified E.p) (hov : NoOverloads E.g)
+    (houts : OutputsOfOutputNodes E.p) (hcc : CandidatesComplete E)
     (hinst : Instance E root A) :
     ∃ combo, combo ∈ combos E root ∧ (multiMatch E false combo).ok = true ∧
       (matcherMatch E root false).ok = true := by
-  obtain ⟨ns, hns, hz⟩ := candidates_cover E A hov E.p.outputNodes.tail false hid
+  obtain ⟨ns, hns, hz⟩ := candidates_cover E A E.p.outputNodes.tail false hcc
     (fun np hm => by
       obtain ⟨n, _, hs⟩ := hinst.outNodes np (List.mem_of_mem_tail hm)
       exact ⟨n, hs⟩)
@@ -249,10 +286,10 @@ the region of finding C06-F5, when no opaque checker rejects -/
 theorem patternMatch_complete_multi (E : Env) (A : Assign) (root : NodeId)
     (hno : E.p.noOr = true) (htopo : E.p.topo) (hnc : E.fixF2 = false ∨ NamedVarsUnchecked E.p)
     (har : E.fixF1 = true ∨ OutputArityOk E.p E.g)
-    (houts : OutputsOfOutputNodes E.p) (hid : LaterOutputsIdentified E.p) (hov : NoOverloads E.g)
+    (houts : OutputsOfOutputNodes E.p) (hcc : CandidatesComplete E)
     (hchk : E.p.checksOk = true) (hinst : Instance E root A) :
     (patternMatch E root false).isSome = true := by
-  obtain ⟨_, _, _, hok⟩ := matcher_complete_multi E A root hno htopo hnc har houts hid hov hinst
+  obtain ⟨_, _, _, hok⟩ := matcher_complete_multi E A root hno htopo hnc har houts hcc hinst
   unfold patternMatch
   have h1 : ∀ r : Result, checksPass E.p r = true := by
     intro r
